@@ -1,0 +1,120 @@
+//! Packet codec hooks: a plain description of a packet and thin wrappers around the crate-internal
+//! `Packet::encode` / `Packet::decode` / `Packet::authenticated_data`.
+use crate::packet::{Packet, PacketHeader, PacketKind, ProtocolIdentity};
+use crate::Enr;
+use enr::NodeId;
+
+/// The kind-specific part of a packet header (mirrors `PacketKind`).
+#[derive(Debug, Clone, PartialEq, Eq)]
+pub enum KindDesc {
+    Message {
+        src_id: [u8; 32],
+    },
+    WhoAreYou {
+        id_nonce: [u8; 16],
+        enr_seq: u64,
+    },
+    Handshake {
+        src_id: [u8; 32],
+        id_nonce_sig: Vec<u8>,
+        ephem_pubkey: Vec<u8>,
+        enr_record: Option<Enr>,
+    },
+}
+
+/// A plain description of a `Packet` (all fields public). The protocol identity is the default one.
+#[derive(Debug, Clone, PartialEq, Eq)]
+pub struct PacketDesc {
+    pub iv: u128,
+    pub message_nonce: [u8; 12],
+    pub kind: KindDesc,
+    pub message: Vec<u8>,
+}
+
+fn to_packet(desc: &PacketDesc) -> Packet {
+    let kind = match &desc.kind {
+        KindDesc::Message { src_id } => PacketKind::Message {
+            src_id: NodeId::new(src_id),
+        },
+        KindDesc::WhoAreYou { id_nonce, enr_seq } => PacketKind::WhoAreYou {
+            id_nonce: *id_nonce,
+            enr_seq: *enr_seq,
+        },
+        KindDesc::Handshake {
+            src_id,
+            id_nonce_sig,
+            ephem_pubkey,
+            enr_record,
+        } => PacketKind::Handshake {
+            src_id: NodeId::new(src_id),
+            id_nonce_sig: id_nonce_sig.clone(),
+            ephem_pubkey: ephem_pubkey.clone(),
+            enr_record: enr_record.clone(),
+        },
+    };
+    Packet {
+        iv: desc.iv,
+        header: PacketHeader {
+            message_nonce: desc.message_nonce,
+            protocol_identity: ProtocolIdentity::default(),
+            kind,
+        },
+        message: desc.message.clone(),
+    }
+}
+
+fn from_packet(packet: Packet) -> PacketDesc {
+    let kind = match packet.header.kind {
+        PacketKind::Message { src_id } => KindDesc::Message {
+            src_id: src_id.raw(),
+        },
+        PacketKind::WhoAreYou { id_nonce, enr_seq } => KindDesc::WhoAreYou { id_nonce, enr_seq },
+        PacketKind::Handshake {
+            src_id,
+            id_nonce_sig,
+            ephem_pubkey,
+            enr_record,
+        } => KindDesc::Handshake {
+            src_id: src_id.raw(),
+            id_nonce_sig,
+            ephem_pubkey,
+            enr_record,
+        },
+    };
+    PacketDesc {
+        iv: packet.iv,
+        message_nonce: packet.header.message_nonce,
+        kind,
+        message: packet.message,
+    }
+}
+
+/// `Packet::encode` of the described packet for the destination `dst_id`.
+pub fn packet_encode(desc: &PacketDesc, dst_id: &[u8; 32]) -> Vec<u8> {
+    to_packet(desc).encode(&NodeId::new(dst_id))
+}
+
+/// `Packet::authenticated_data` of the described packet.
+pub fn packet_authenticated_data(desc: &PacketDesc) -> Vec<u8> {
+    to_packet(desc).authenticated_data()
+}
+
+/// `Packet::decode` with the default protocol identity. The error is the `Debug` rendering of the
+/// `PacketError` (variant name, with the payload in parentheses where there is one).
+pub fn packet_decode(local_id: &[u8; 32], data: &[u8]) -> Result<(PacketDesc, Vec<u8>), String> {
+    match Packet::decode(&NodeId::new(local_id), ProtocolIdentity::default(), data) {
+        Ok((packet, authenticated_data)) => Ok((from_packet(packet), authenticated_data)),
+        Err(e) => Err(format!("{:?}", e)),
+    }
+}
+
+/// The constants of the codec (cross-checked against the generated Coq parameters by the harness).
+pub fn packet_constants() -> Vec<(&'static str, u64)> {
+    vec![
+        ("IV_LENGTH", crate::packet::IV_LENGTH as u64),
+        ("STATIC_HEADER_LENGTH", crate::packet::STATIC_HEADER_LENGTH as u64),
+        ("MESSAGE_NONCE_LENGTH", crate::packet::MESSAGE_NONCE_LENGTH as u64),
+        ("ID_NONCE_LENGTH", crate::packet::ID_NONCE_LENGTH as u64),
+        ("MAX_PACKET_SIZE", crate::packet::MAX_PACKET_SIZE as u64),
+    ]
+}
